@@ -181,6 +181,18 @@ func (ev *Ev) ident(name string) *Val {
 		if found != nil {
 			return found
 		}
+		if seen > 0 && want == 0 {
+			// a local variable that has not been declared yet on this path: its zero value
+			for _, b := range ev.fr.Fn.Blocks {
+				for _, ins := range b.Instrs {
+					if a, ok := ins.(*ssa.Alloc); ok && a.Comment == name {
+						if _, isParam := ev.fr.Params[name]; !isParam {
+							return zeroVal(a.Type().(*types.Pointer).Elem())
+						}
+					}
+				}
+			}
+		}
 		if v, ok := ev.fr.envTop[name]; ok {
 			return v
 		}
@@ -878,7 +890,15 @@ func (ev *Ev) call(e *SExpr) *Val {
 		default:
 			specFail("bytesval of non-bytes")
 		}
-		return mathVal(App("bytesval", SInt, arr, off, ln))
+		return mathVal(ev.c.bytesVal(arr, off, ln))
+	case "blen":
+		return mathVal(App("blen", SInt, ev.intTerm(args[0])))
+	case "btail":
+		return mathVal(ev.c.btail(ev.intTerm(args[0])))
+	case "bcat":
+		return mathVal(ev.c.bcat(ev.intTerm(args[0]), ev.intTerm(args[1])))
+	case "bempty":
+		return mathVal(ev.c.bempty())
 	case "slice":
 		// slice("[]T", arr, off, len): a slice value from its components (capacity = len)
 		if args[0].Kind != "str" {
@@ -1153,6 +1173,36 @@ func arrAsInt(v *Val) *Term {
 	return sum
 }
 
+// ---- the algebra of abstract byte strings: bytesval(content, off, len) with blen / btail / bcat / bempty ----------------
+func (c *Ctx) bempty() *Term { return App("bempty", SInt) }
+
+func (c *Ctx) bytesVal(arr, off, ln *Term) *Term {
+	v := App("bytesval", SInt, arr, off, ln)
+	c.addFact(Eq(App("blen", SInt, v), ln))
+	c.addFact(Implies(Eq(ln, Num(0)), Eq(v, c.bempty())))
+	c.addFact(Eq(App("blen", SInt, c.bempty()), Num(0)))
+	return v
+}
+
+func (c *Ctx) btail(v *Term) *Term {
+	t := App("btail", SInt, v)
+	c.addFact(Implies(Le(Num(1), App("blen", SInt, v)), Eq(App("blen", SInt, t), Sub(App("blen", SInt, v), Num(1)))))
+	c.addFact(Implies(Eq(App("blen", SInt, t), Num(0)), Eq(t, c.bempty())))
+	return t
+}
+
+func (c *Ctx) bcat(a, b *Term) *Term {
+	t := App("bcat", SInt, a, b)
+	la, lb := App("blen", SInt, a), App("blen", SInt, b)
+	c.addFact(Eq(App("blen", SInt, t), Add(la, lb)))
+	c.addFact(And(Le(Num(0), la), Le(Num(0), lb)))
+	c.addFact(Implies(Eq(la, Num(1)), Eq(App("btail", SInt, t), b)))
+	c.addFact(Implies(Eq(la, Num(0)), Eq(t, b)))
+	c.addFact(Implies(Eq(lb, Num(0)), Eq(t, a)))
+	c.addFact(Eq(App("blen", SInt, c.bempty()), Num(0)))
+	return t
+}
+
 type bview struct{ arr, off, ln *Term }
 
 func (ev *Ev) viewOf(v *Val) bview {
@@ -1170,8 +1220,8 @@ func (ev *Ev) viewOf(v *Val) bview {
 // bytesCmp is the shared model of bytes.Compare: an uninterpreted three-valued function on views that is antisymmetric and
 // zero exactly on equal contents (the lexicographic definition itself is not unfolded).
 func (c *Ctx) bytesCmp(st *State, x, y bview) *Term {
-	vx := App("bytesval", SInt, x.arr, x.off, x.ln)
-	vy := App("bytesval", SInt, y.arr, y.off, y.ln)
+	vx := c.bytesVal(x.arr, x.off, x.ln)
+	vy := c.bytesVal(y.arr, y.off, y.ln)
 	r := App("bytes.cmp", SInt, vx, vy)
 	c.orderAxioms()
 	c.addFact(And(Le(Num(-1), r), Le(r, Num(1))))
